@@ -104,12 +104,12 @@ func TestVerif_C03(t *testing.T) {
 	r := verifmc.NewReport("C03", "snapshot-forest", "model_checking")
 	defer r.Write()
 	maxTries := 3
-	depth := verifmc.Pick(5, 6)
+	depth := verifmc.Pick(5, 8)
 	r.Rule = fmt.Sprintf("BFS (depth %d) over histories on a forest of up to %d tries related by Snapshot (snapshots of snapshots included): put/delete/clearPrefix on keys 01,0100,0101 (from populated bases also 0102 and 10) with values 01 and a 40-byte value (inline in V0, hashed in V1), raising any trie to V1, hashing any trie; states deduplicated on the full private dump of all tries including node sharing; after every operation every trie of the forest must have the contents and the independent spec root of its own model", depth, maxTries)
 	c03Run(r, "", depth, maxTries)
 	// populated bases (a branch with a leaf and a sub-branch below it; a valued branch; hashed or not):
 	// shapes that need 3-4 puts to build are then one step from the start
-	dSeed := verifmc.Pick(4, 5)
+	dSeed := verifmc.Pick(4, 6)
 	for _, seed := range []string{"leaf+subbranch", "valued-branch", "leaf+subbranch/hashed", "valued-branch/hashed"} {
 		c03Run(r, seed, dSeed, maxTries)
 	}
